@@ -166,6 +166,7 @@ type Event struct {
 }
 
 type NondetRec struct {
+	Src  string // "h" = drawn by a harness vf* call (replayable), "" = engine/environment
 	Tag  string
 	Kind string // bool,int,string,choice
 	Term *Term  // symbolic variable (nil for choice)
@@ -173,20 +174,20 @@ type NondetRec struct {
 }
 
 type Violation struct {
-	Label  string
-	Kind   string // assert, panic, deadlock, livelock, unwind
-	Pos    string
-	Fn     string
-	Msg    string
-	Class  string
-	Model  []NondetVal
-	Events []string
-	Path   int
-	Confirmed *bool
-	ReplayNote string
+	Label  string      `json:"label"`
+	Kind   string      `json:"kind"` // assert, panic, deadlock, livelock, unwind, unknown
+	Pos    string      `json:"pos"`
+	Fn     string      `json:"fn"`
+	Msg    string      `json:"msg,omitempty"`
+	Class  string      `json:"class,omitempty"`
+	Model  []NondetVal `json:"model"`
+	Events []string    `json:"events,omitempty"`
+	Labels []string    `json:"labels,omitempty"`
+	Path   int         `json:"path"`
 }
 
 type NondetVal struct {
+	Src   string `json:"src,omitempty"`
 	Tag   string `json:"tag"`
 	Kind  string `json:"kind"`
 	Value string `json:"value"`
@@ -202,6 +203,7 @@ type State struct {
 	Events  []Event
 	Nondets []NondetRec
 	Classes []string
+	Labels  []string // harness label trace (assert / reach sites passed)
 	World   *World
 	Globals map[*ssa.Global]int // lazily allocated global objects (copy-on-clone)
 	Steps   int
@@ -267,6 +269,7 @@ func (s *State) Clone() *State {
 	ns.Events = s.Events[:len(s.Events):len(s.Events)]
 	ns.Nondets = s.Nondets[:len(s.Nondets):len(s.Nondets)]
 	ns.Classes = s.Classes[:len(s.Classes):len(s.Classes)]
+	ns.Labels = s.Labels[:len(s.Labels):len(s.Labels)]
 	ns.Timers = append([]Timer(nil), s.Timers...)
 	ns.Globals = make(map[*ssa.Global]int, len(s.Globals))
 	for k, v := range s.Globals {
